@@ -1,6 +1,7 @@
 """Shared pieces of the text-level checks (C01-C05, C11, C12, C18): Licensing cache, a reference
 grammar over token kinds, word-level helpers. All of it states the properties; none of it is the model."""
 import json
+import zlib
 
 import impl
 from proto import T
@@ -10,8 +11,11 @@ le = impl.le
 _lic_cache = {}
 
 
-def licensing(table, records=False):
-    """a Licensing over the table; `records`: the table given as symbol-like user objects instead of LicenseSymbols"""
+def licensing(table, records=None):
+    """a Licensing over the table; `records`: the table given as symbol-like user objects instead of LicenseSymbols
+    (by default for one table in five, a function of the table)"""
+    if records is None:
+        records = bool(table) and zlib.crc32(json.dumps(table).encode()) % 5 == 0
     k = json.dumps([table, records])
     lic = _lic_cache.get(k)
     if lic is None:
